@@ -146,7 +146,8 @@ theorem reqWithCRC_badCRC_iff (body : Bytes) (l h : UInt8) (sp : Bytes) (hlen : 
     parseRTURequestWithCRC ⟨body ++ [l, h], sp⟩ = .err .badCRC ↔
       ¬ (l = lo8 (crc16 body) ∧ h = hi8 (crc16 body)) := by
   unfold parseRTURequestWithCRC
-  have hl : ¬ ((⟨body ++ [l, h], sp⟩ : Slice).len < 4) := by simp [Slice.len]; omega
+  dsimp only
+  have hl : ¬ ((body ++ [l, h]).length < 4) := by simp; omega
   rw [if_neg hl]
   rw [← crcMatches_iff]
   by_cases hm : crcMatches (body ++ [l, h]) = true
@@ -158,7 +159,8 @@ theorem respWithCRC_badCRC_iff (body : Bytes) (l h : UInt8) (sp : Bytes) (hlen :
     parseRTUResponseWithCRC ⟨body ++ [l, h], sp⟩ = .err .badCRC ↔
       ¬ (l = lo8 (crc16 body) ∧ h = hi8 (crc16 body)) := by
   unfold parseRTUResponseWithCRC
-  have hl : ¬ ((⟨body ++ [l, h], sp⟩ : Slice).len < 4) := by simp [Slice.len]; omega
+  dsimp only
+  have hl : ¬ ((body ++ [l, h]).length < 4) := by simp; omega
   rw [if_neg hl]
   rw [← crcMatches_iff]
   by_cases hm : crcMatches (body ++ [l, h]) = true
